@@ -59,7 +59,9 @@ pub struct K(Rc<Frame>);
 enum ArgsFor {
     Call(String),
     Ctor(String),
-    Dtor(Rc<CloF>, String),
+    /// destructor call: the arguments are evaluated before the scrutinee (consumer first for
+    /// codata: the observation `D(values)` is complete before the observed term runs)
+    Dtor(Rc<Term>, String),
 }
 
 enum Frame {
@@ -72,7 +74,7 @@ enum Frame {
     Let(String, Rc<Term>, Env, K),
     Args(ArgsFor, Vec<FV>, Vec<Term>, usize, Env, K),
     Case(Vec<Clause>, Env, K),
-    DtorScrut(String, Vec<Term>, Env, K),
+    DtorApply(String, Vec<FV>, K),
     Exit,
 }
 
@@ -176,9 +178,10 @@ pub fn run(p: &CheckedProgram, args: &[i64], budget: u64) -> FunOutcome {
                     Ok(s) => s,
                     Err(m) => return Err(stuck(&m)),
                 },
-                Term::Destructor(d) => {
-                    State::Eval(d.scrutinee.clone(), env.clone(), K(Rc::new(Frame::DtorScrut(d.id.clone(), d.args.entries.clone(), env, k))))
-                }
+                Term::Destructor(d) => match args_step(p, ArgsFor::Dtor(d.scrutinee.clone(), d.id.clone()), Vec::new(), d.args.entries.clone(), 0, env, k) {
+                    Ok(s) => s,
+                    Err(m) => return Err(stuck(&m)),
+                },
                 Term::Case(c) => State::Eval(c.scrutinee.clone(), env.clone(), K(Rc::new(Frame::Case(c.clauses.clone(), env, k)))),
                 Term::New(n) => State::Ret(FV::Codata(Rc::new(CloF { clauses: n.clauses.clone(), env })), k),
                 Term::Label(l) => {
@@ -261,12 +264,18 @@ pub fn run(p: &CheckedProgram, args: &[i64], budget: u64) -> FunOutcome {
                     }
                     State::Eval(Rc::new(c.body.clone()), e2, k2.clone())
                 }
-                Frame::DtorScrut(id, args, env, k2) => {
+                Frame::DtorApply(id, done, k2) => {
                     let FV::Codata(c) = &v else { return Err(stuck("destructor: not codata")) };
-                    match args_step(p, ArgsFor::Dtor(c.clone(), id.clone()), Vec::new(), args.clone(), 0, env.clone(), k2.clone()) {
-                        Ok(s) => s,
-                        Err(m) => return Err(stuck(&m)),
+                    let Some(cl) = c.clauses.iter().find(|cl| cl.xtor == *id) else { return Err(stuck(&format!("no clause for destructor {id}"))) };
+                    let names = binder_names(cl);
+                    if names.len() != done.len() {
+                        return Err(stuck(&format!("destructor {id}: argument count")));
                     }
+                    let mut e = c.env.clone();
+                    for ((n, covar), v) in names.iter().zip(done.iter()) {
+                        e = e.bind(n, *covar, v.clone());
+                    }
+                    State::Eval(Rc::new(cl.body.clone()), e, k2.clone())
                 }
             },
         };
@@ -333,18 +342,7 @@ pub fn run(p: &CheckedProgram, args: &[i64], budget: u64) -> FunOutcome {
                 }
                 Ok(State::Eval(Rc::new(d.body.clone()), e, k))
             }
-            ArgsFor::Dtor(c, id) => {
-                let cl = c.clauses.iter().find(|cl| cl.xtor == id).ok_or_else(|| format!("no clause for destructor {id}"))?;
-                let names = binder_names(cl);
-                if names.len() != done.len() {
-                    return Err(format!("destructor {id}: argument count"));
-                }
-                let mut e = c.env.clone();
-                for ((n, covar), v) in names.iter().zip(done) {
-                    e = e.bind(n, *covar, v);
-                }
-                Ok(State::Eval(Rc::new(cl.body.clone()), e, k))
-            }
+            ArgsFor::Dtor(scrutinee, id) => Ok(State::Eval(scrutinee, env, K(Rc::new(Frame::DtorApply(id, done, k))))),
         }
     }
 }
